@@ -177,6 +177,120 @@ func program(r *mc.Run, n int, useDeadline bool) func(x *mc.X) {
 	}
 }
 
+// rounds: consecutive collections on one collector (as the sync loop runs them),
+// where clocks of an earlier round may still be busy while the next round runs
+// and return at any point of it. Every round is judged on its own clocks only.
+func rounds(r *mc.Run, nrounds, n int) func(x *mc.X) {
+	return func(x *mc.X) {
+		world.Run(r.T, x, func(w *world.World) {
+			var rc client.ReferenceClockClient
+			g0 := world.BubbleGoroutines()
+			var stragglers []*clk
+			var all []*clk
+			for round := 0; round < nrounds; round++ {
+				clocks := make([]*clk, n)
+				refs := make([]client.ReferenceClock, n)
+				for i := range clocks {
+					k := x.Choose(4, fmt.Sprintf("round%d-clock%d", round, i))
+					clocks[i] = &clk{id: 10*round + i, ok: k%2 == 0, disp: []int{dispEvent, dispNever}[k/2], release: make(chan struct{})}
+					refs[i] = clocks[i]
+				}
+				all = append(all, clocks...)
+				sentinel := measurements.Measurement{Offset: -777}
+				ms := make([]measurements.Measurement, n)
+				for i := range ms {
+					ms[i] = sentinel
+				}
+				start := time.Now()
+				ctx, cancel := context.WithTimeout(context.Background(), timeout)
+				returned := false
+				var retAt time.Time
+				w.Go(fmt.Sprintf("collector%d", round), func() {
+					rc.MeasureClockOffsets(ctx, refs, ms)
+					retAt = time.Now()
+					returned = true
+				})
+				w.Settle()
+				w.CheckPanics()
+				var expect []measurements.Measurement
+				delivered, cancelled := 0, false
+				for {
+					if must := delivered == n || cancelled; returned != must {
+						x.Failf("round-return-timing", "round %d: after %d of %d own clock results, deadline passed=%v: returned=%v", round, delivered, n, cancelled, returned)
+					}
+					if returned {
+						break
+					}
+					var ev []*clk
+					for _, c := range clocks {
+						if c.disp == dispEvent && !c.exited {
+							ev = append(ev, c)
+						}
+					}
+					nown := len(ev)
+					for _, c := range stragglers {
+						if !c.exited {
+							ev = append(ev, c)
+						}
+					}
+					k := x.Choose(len(ev)+1, "event")
+					switch {
+					case k == len(ev):
+						x.Logf("round %d: deadline", round)
+						time.Sleep(time.Until(start.Add(timeout)))
+						cancelled = true
+					case k < nown:
+						c := ev[k]
+						x.Logf("round %d: clock %d returns ok=%v", round, c.id, c.ok)
+						close(c.release)
+						delivered++
+						if c.ok {
+							expect = append(expect, measurements.Measurement{Timestamp: world.Epoch.Add(time.Duration(c.id) * time.Second), Offset: time.Duration(100 + c.id)})
+						}
+					default:
+						c := ev[k]
+						x.Logf("round %d: clock %d of an earlier round returns", round, c.id)
+						close(c.release)
+					}
+					x.Transitions++
+					w.Settle()
+					w.CheckPanics()
+				}
+				cancel()
+				if retAt.After(start.Add(timeout)) {
+					x.Failf("round-after-deadline", "round %d returned at +%v, deadline +%v", round, retAt.Sub(start), timeout)
+				}
+				for i := range ms {
+					want := sentinel
+					if i < len(expect) {
+						want = expect[i]
+					}
+					if ms[i].Offset != want.Offset || !ms[i].Timestamp.Equal(want.Timestamp) || (ms[i].Error != nil) != (want.Error != nil) {
+						x.Failf("round-results", "round %d: results %v, want the in-time successes of this round's clocks in arrival order %v followed by untouched entries", round, fmtMs(ms), fmtMs(expect))
+					}
+				}
+				x.Observe(round, len(expect), delivered)
+				for _, c := range clocks {
+					if !c.exited {
+						stragglers = append(stragglers, c)
+					}
+				}
+				time.Sleep(time.Millisecond)
+			}
+			for _, c := range all {
+				if !c.exited {
+					close(c.release)
+				}
+			}
+			w.Settle()
+			w.CheckPanics()
+			if g := world.BubbleGoroutines(); g > g0 {
+				x.Failf("goroutine-leak", "%d goroutines before the rounds, %d after every clock returned", g0, g)
+			}
+		})
+	}
+}
+
 func fmtMs(ms []measurements.Measurement) string {
 	var b strings.Builder
 	for _, m := range ms {
@@ -317,7 +431,11 @@ func TestCheck(t *testing.T) {
 					r.Explore(mc.Config{Name: fmt.Sprintf("collect/n%d/deadline=%v", n, dl), Bound: -1}, program(r, n, dl))
 				}
 			}
-			r.Extra["rule"] = "n in 0..5 (6) clocks, each {ok,error} x {returns as an event, returns only after cancellation, never returns until released at the end}; all total orders of clock returns and the cancellation (explicit cancel and virtual deadline); second collection on the same collector under all interleavings of the guard's compare-and-swap operations"
+			// consecutive rounds on one collector with clocks of earlier rounds still busy
+			r.Explore(mc.Config{Name: "rounds/2x2", Bound: -1}, rounds(r, 2, 2))
+			r.Explore(mc.Config{Name: "rounds/3x2", Bound: mc.Pick(r, 3, 5)}, rounds(r, 3, 2))
+			r.Explore(mc.Config{Name: "rounds/2x3", Bound: mc.Pick(r, 3, 5)}, rounds(r, 2, 3))
+			r.Extra["rule"] = "n in 0..5 (6) clocks, each {ok,error} x {returns as an event, returns only after cancellation, never returns until released at the end}; all total orders of clock returns and the cancellation (explicit cancel and virtual deadline); 2 and 3 consecutive rounds of 2 or 3 clocks on one collector where clocks of an earlier round return at any point of a later one (each round judged on its own clocks); second collection on the same collector under all interleavings of the guard's compare-and-swap operations"
 		}
 	})
 }
